@@ -96,7 +96,6 @@ func runC02(r *Run) {
 	}
 	// planners = functions storing Result.PodsToCreate / PodsToDelete
 	for _, fn := range sortedFuncs(reach) {
-		ff := (*FuncFacts)(nil)
 		for _, b := range fn.Blocks {
 			for _, in := range b.Instrs {
 				st, ok := in.(*ssa.Store)
@@ -112,26 +111,33 @@ func runC02(r *Run) {
 				default:
 					continue
 				}
-				if ff == nil {
-					ff = computeFacts(fn)
-				}
-				apps := appendCallsOf(st.Val)
+				apps := r.Prog.appendSitesIP(st.Val)
 				if len(apps) == 0 {
 					if isNilConst(st.Val) {
 						continue
 					}
-					r.Undecided(rule, "store "+what, r.Prog.Pos(instrPos(st)), shortFunc(fn), "stored list is not built by append in this function")
+					r.Undecided(rule, "store "+what, r.Prog.Pos(instrPos(st)), shortFunc(fn), "stored list is not built by append (also looking into helpers and returned structs)")
 					continue
 				}
 				for ai := 0; ai < len(apps); ai++ {
 					ap := apps[ai]
 					elems, spread := appendedElems(ap)
 					pos := r.Prog.Pos(instrPos(ap))
+					ff := r.Prog.factsOf(ap.Parent())
+					fn := ap.Parent()
 					if spread != nil {
-						// concatenation of two candidate lists: both sides are walked by appendCallsOf
-						// only for the first argument; walk the second explicitly.
-						for _, ap2 := range appendCallsOf(spread) {
-							apps = append(apps, ap2)
+						// concatenation of two candidate lists: the first argument is walked by
+						// appendSitesIP; walk the second explicitly.
+						for _, ap2 := range r.Prog.appendSitesIP(spread) {
+							dup := false
+							for _, e := range apps {
+								if e == ap2 {
+									dup = true
+								}
+							}
+							if !dup {
+								apps = append(apps, ap2)
+							}
 						}
 						continue
 					}
